@@ -13,6 +13,7 @@ import (
 	"github.com/attestantio/vouch/internal/vnd"
 	"github.com/attestantio/vouch/internal/vstub"
 	"github.com/prysmaticlabs/go-bitfield"
+	"github.com/rs/zerolog"
 )
 
 const (
@@ -30,9 +31,14 @@ type c07Provider struct {
 	calls   int
 }
 
-func (p *c07Provider) AggregateAttestation(_ context.Context, _ *api.AggregateAttestationOpts) (*api.Response[*phase0.Attestation], error) {
+func (p *c07Provider) AggregateAttestation(ctx context.Context, _ *api.AggregateAttestationOpts) (*api.Response[*phase0.Attestation], error) {
 	p.calls++
-	vnd.Sleep(p.latency)
+	// like a real HTTP client the node stub gives up when the context it was called with ends
+	select {
+	case <-ctx.Done():
+		return nil, ctx.Err()
+	case <-time.After(p.latency):
+	}
 	switch p.outcome {
 	case oError:
 		return nil, errors.New("mock provider error")
@@ -40,6 +46,14 @@ func (p *c07Provider) AggregateAttestation(_ context.Context, _ *api.AggregateAt
 		return &api.Response[*phase0.Attestation]{Data: nil, Metadata: map[string]any{}}, nil
 	}
 	return &api.Response[*phase0.Attestation]{Data: p.data, Metadata: map[string]any{}}, nil
+}
+
+// c07New builds the strategy the way main does: through New.
+func c07New(timeout time.Duration, providers map[string]eth2client.AggregateAttestationProvider) *Service {
+	s, err := New(context.Background(), WithLogLevel(zerolog.Disabled), WithClientMonitor(vstub.ClientMonitor{}),
+		WithTimeout(timeout), WithProcessConcurrency(int64(len(providers))), WithAggregateAttestationProviders(providers))
+	vnd.Assert(err == nil && s != nil, "C07.new.accepted")
+	return s
 }
 
 // VerifC07_AggregateBest: the best aggregate-attestation strategy.
@@ -51,7 +65,7 @@ func VerifC07_AggregateBestWide() { c07AggregateBest(vnd.IntRange("n", 1, 2), 3)
 func c07AggregateBest(n, levels int) {
 	timeout := time.Duration(vnd.I64("timeout"))
 	vnd.Assume(timeout >= 2 && timeout <= 60000) // virtual nanoseconds
-	s := &Service{clientMonitor: vstub.ClientMonitor{}, timeout: timeout, aggregateAttestationProviders: map[string]eth2client.AggregateAttestationProvider{}}
+	providers := map[string]eth2client.AggregateAttestationProvider{}
 	provs := make([]*c07Provider, n)
 	for i := 0; i < n; i++ {
 		p := &c07Provider{name: []string{"node-a", "node-b", "node-c"}[i]}
@@ -67,8 +81,9 @@ func c07AggregateBest(n, levels int) {
 		}
 		p.data = &phase0.Attestation{AggregationBits: bits, Data: &phase0.AttestationData{Slot: 7, Index: phase0.CommitteeIndex(i), Source: &phase0.Checkpoint{}, Target: &phase0.Checkpoint{}}}
 		provs[i] = p
-		s.aggregateAttestationProviders[p.name] = p
+		providers[p.name] = p
 	}
+	s := c07New(timeout, providers)
 	start := vnd.NowNs()
 	resp, err := s.AggregateAttestation(context.Background(), &api.AggregateAttestationOpts{Slot: 7})
 	elapsed := time.Duration(vnd.NowNs() - start)
